@@ -4,7 +4,8 @@
    `_get_children`/`_get_key` induce (plain sub-terms, NNF's virtual children, (formula,
    polarity) pairs, (measure, formula) pairs), `f` the per-node callback, which may raise.
    All statements hold for EVERY such DAG (children smaller than parents), EVERY callback,
-   EVERY memo content reachable on a walker whose calls have not raised ([clean]). *)
+   EVERY memo content reachable on a walker object ([clean]: every call, raising or not,
+   re-establishes it, see C20_terminates_memo_correct). *)
 From Coq Require Import List Arith.
 From PySMT.core Require Import DagWalk.
 From PySMT.proofs Require Import DagWalk_proofs.
@@ -44,14 +45,14 @@ Theorem C20_pops_linear : forall (A : Type) (children : nat -> list nat),
 Proof. exact walk_pops. Qed.
 
 (* with that fuel the loop always terminates by itself (success or exception), the memo stays
-   correct, and a persistent memo only grows *)
+   correct, a persistent memo only grows, and the walker is left with an EMPTY stack after
+   every call, also after one that raised *)
 Theorem C20_terminates_memo_correct : forall (A : Type) (children : nat -> list nat),
   (forall n c, In c (children n) -> c < n) ->
   forall (f : nat -> list A -> option A) early oneshot w root fuel s a,
   clean A children f w -> enough_fuel children root <= fuel ->
   walk A children f early oneshot fuel w root = (s, a) ->
-  Mok A children f (mm s) /\ (oneshot = false -> sub A (mm w) (mm s)) /\
-  (forall v, a = Ok v -> clean A children f s) /\ a <> NoFuel.
+  (stk s = [] /\ Mok A children f (mm s)) /\ (oneshot = false -> sub A (mm w) (mm s)) /\ a <> NoFuel.
 Proof. exact walk_memo_inv. Qed.
 
 (* and what it computes is the naive recursive fold *)
